@@ -67,7 +67,7 @@ func runVerifyKeep(w *world.World) (vResult, *verify.Options) {
 	o := &verify.Options{GetCollateral: w.Spec.GC, CheckRevocations: w.Spec.CR, Getter: w.Getter, TrustedRoots: w.Pool()}
 	if w.Spec.Now != nil {
 		n := w.Spec.Now
-		o.Now = &verify.TimeSet{PckCertChain: n[0], TcbInfo: n[1], QeIdentity: n[2], PckCrl: n[3], RootCaCrl: n[4]}
+		o.Now = vTimeSet(n)
 	}
 	nowBefore := o.Now
 	var err error
@@ -88,7 +88,7 @@ func runVerifyKeep(w *world.World) (vResult, *verify.Options) {
 	}
 	joined := world.JoinURLs(w.Getter.URLs)
 	obs := fmt.Sprintf("%s urls=%d:%d now=%s", res, len(w.Getter.URLs), hx.Fnv1a([]byte(joined)), nowS)
-	return vResult{obs, res == "ok", res == "panic", append([]string{}, w.Getter.URLs...), err}, o
+	return vResult{obs, res == "ok", res == "panic", append([]string{}, w.Getter.URLs...), err, vSide(w, o)}, o
 }
 
 // showLevelGo prints a level exactly as the model's showLevel does.
@@ -189,6 +189,9 @@ func runJob(j *vJob) vOut {
 		out.fail = "crash in verify.TdxQuote"
 	} else if j.oracle != nil {
 		out.fail = j.oracle(w, vr)
+	}
+	if out.fail == "" {
+		out.fail = vr.side
 	}
 	if d := os.Getenv("TDX_DEBUG_FAULT"); d != "" && strings.Contains(j.spec.Fault, d) {
 		fmt.Fprintf(os.Stderr, "DEBUG %s gc=%v cr=%v -> %s err=%v oracle=%q\n", j.spec.Fault, j.spec.GC, j.spec.CR, vr.obs, vr.err, out.fail)
